@@ -97,6 +97,19 @@ def check_task(bag, rng, spec_vars, n_pos):
     bag["n"] += 1
     if task.space_dimension != dim:
         bad("dimension", f"space_dimension = {task.space_dimension}, sum of sizes = {dim}")
+    # a task rebuilt from another task's fields with other variables (a natural way to derive a sibling problem) describes
+    # ITS variables: the dimension is recomputed, not inherited
+    bag["n"] += 1
+    try:
+        other_vars = [["c", -1.0, 1.0], ["b", 2]] if dim != 3 else [["cm", [0.0, 0.0], [1.0, 1.0]]]
+        fields = {k: getattr(task, k) for k in type(task).model_fields}
+        fields["variables"] = tasks.build_variables(other_vars)
+        sib = type(task)(**fields)
+        if sib.space_dimension != sum(tasks.var_sizes(other_vars)) or len(sib.empty_solution()) != sib.space_dimension:
+            bad("dimension", f"task rebuilt from the fields of a {dim}-dimensional task with variables {other_vars!r}: space_dimension = "
+                             f"{sib.space_dimension}, empty_solution has {len(sib.empty_solution())} coordinates")
+    except Exception as ex:
+        bad("dimension", f"rebuilding a task from another task's fields raised {type(ex).__name__}: {ex}")
     is_perm_only = [v[0] for v in spec_vars] == ["p"]
     # ---- bounds
     bag["n"] += 1
@@ -198,6 +211,23 @@ def check_task(bag, rng, spec_vars, n_pos):
                     bad("correct-solution", f"correct_solution({x!r}) = {c!r}: {tasks.member(flat, c)}")
             except Exception as ex:
                 bad("correct-solution", f"correct_solution({x!r}) [{how}] raised {type(ex).__name__}: {ex}")
+        # ---- transform_solution on raw (uncorrected) permutation keys of every numeric type: same decoding as the ranks
+        if is_perm_only:
+            n_ = flat[0][1]
+            for raw in ([rng.randrange(100) for _ in range(n_)], [float(rng.randrange(100)) for _ in range(n_)],
+                        [rng.uniform(-50, 50) for _ in range(n_)], list(np.array([rng.randrange(1000) for _ in range(n_)]))):
+                if len(set(raw)) != n_:
+                    continue
+                bag["n"] += 1
+                try:
+                    ranks = PermutationVariable(name="f", items=list(range(n_))).correct(raw)
+                    labels_ = list(task.variables[0].decode(list(range(n_))))
+                    got = task.transform_solution([raw])
+                    want = {"v0": [labels_[int(e)] for e in ranks]}
+                    if json.dumps(canon(got), sort_keys=True) != json.dumps(canon(want), sort_keys=True):
+                        bad("transform-values", f"transform_solution([{raw!r}]) = {got!r}; decoding the ranks {ranks!r} gives {want!r}")
+                except Exception as ex:
+                    bad("transform-values", f"transform_solution on raw keys {raw!r} raised {type(ex).__name__}: {ex}")
         # ---- transform_solution on a member position
         bag["n"] += 1
         try:
